@@ -8,7 +8,6 @@ import (
 	basketv1 "github.com/regen-network/regen-ledger/api/v2/regen/ecocredit/basket/v1"
 	basetypes "github.com/regen-network/regen-ledger/x/ecocredit/v3/base/types/v1"
 	baskettypes "github.com/regen-network/regen-ledger/x/ecocredit/v3/basket/types/v1"
-	markettypes "github.com/regen-network/regen-ledger/x/ecocredit/v3/marketplace/types/v1"
 )
 
 // ---------------------------------------------------------------- C11
@@ -436,9 +435,8 @@ func (c *C18) AfterTx(w *World, t *TxCtx) {
 			}
 		}
 	}
-	if !single {
-		return
-	}
+	// R1-R3 judge txs that consist only of fee-charging creations (one or several):
+	// every message of an accepted tx was accepted, so the fees add up.
 	type feeCase struct {
 		kind    string
 		set     bool
@@ -446,85 +444,115 @@ func (c *C18) AfterTx(w *World, t *TxCtx) {
 		fee     *big.Int
 		offered *big.Int // in the fee denom; nil = nothing offered in that denom
 	}
-	var fc *feeCase
-	switch msg := t.Msgs[0].(type) {
-	case *basetypes.MsgCreateClass:
-		fc = &feeCase{kind: "CreateClass"}
-		if pre.ClassFee != nil && pre.ClassFee.Fee != nil {
-			fc.set, fc.denom = true, pre.ClassFee.Fee.Denom
-			fc.fee, _ = new(big.Int).SetString(pre.ClassFee.Fee.Amount, 10)
-			if msg.Fee != nil && msg.Fee.Denom == fc.denom {
-				fc.offered = msg.Fee.Amount.BigInt()
-			}
-		}
-	case *baskettypes.MsgCreate:
-		fc = &feeCase{kind: "basket Create"}
-		if pre.BasketFee != nil && pre.BasketFee.Fee != nil {
-			fc.set, fc.denom = true, pre.BasketFee.Fee.Denom
-			fc.fee, _ = new(big.Int).SetString(pre.BasketFee.Fee.Amount, 10)
-			for _, cn := range msg.Fee {
-				if cn.Denom == fc.denom {
-					fc.offered = cn.Amount.BigInt()
+	var fcs []*feeCase
+	for _, m := range t.Msgs {
+		var fc *feeCase
+		switch msg := m.(type) {
+		case *basetypes.MsgCreateClass:
+			fc = &feeCase{kind: "CreateClass"}
+			if pre.ClassFee != nil && pre.ClassFee.Fee != nil {
+				fc.set, fc.denom = true, pre.ClassFee.Fee.Denom
+				fc.fee, _ = new(big.Int).SetString(pre.ClassFee.Fee.Amount, 10)
+				if msg.Fee != nil && msg.Fee.Denom == fc.denom {
+					fc.offered = msg.Fee.Amount.BigInt()
 				}
 			}
-		}
-	case *markettypes.MsgGovSetFeeParams, *basetypes.MsgUpdateClassFee, *baskettypes.MsgUpdateBasketFee:
-		return
-	}
-	if fc == nil {
-		return
-	}
-	bank := DiffBank(pre, post)
-	if !t.Res.OK {
-		return
-	}
-	if !fc.set || fc.fee == nil {
-		// R3: no fee set → nothing is charged
-		if len(bank) != 0 {
-			w.Violate("R3", "charged-without-fee-set", "%s accepted with no fee set, yet the %s balance/supply of %q changed by %s", fc.kind, bank[0].Denom, bank[0].Addr, bank[0].Delta)
-		}
-		return
-	}
-	// R2: an accepted creation must have offered enough and the creator must have had the funds
-	if fc.offered == nil {
-		fc.offered = new(big.Int) // nothing offered in the fee denom = an offer of zero
-	}
-	if fc.offered.Cmp(fc.fee) < 0 {
-		w.Violate("R2", "accepted-with-offer-below-fee", "%s accepted although the fee is %s%s and the offer in that denom is %v", fc.kind, fc.fee, fc.denom, fc.offered)
-		return
-	}
-	if pre.BankBal(t.Signer, fc.denom).Cmp(fc.fee) < 0 {
-		w.Violate("R2", "accepted-without-funds", "%s accepted although the creator holds %s%s and the fee is %s", fc.kind, pre.BankBal(t.Signer, fc.denom), fc.denom, fc.fee)
-		return
-	}
-	// R1: exactly the fee is debited and burned
-	neg := new(big.Int).Neg(fc.fee)
-	okCreator, okSupply := fc.fee.Sign() == 0, fc.fee.Sign() == 0
-	for _, d := range bank {
-		switch {
-		case d.Addr == t.Signer && d.Denom == fc.denom:
-			okCreator = d.Delta.Cmp(neg) == 0
-			if !okCreator {
-				w.Violate("R1", "creator-debited-wrong-amount", "%s with fee %s%s (offered %s): the creator's balance changed by %s", fc.kind, fc.fee, fc.denom, fc.offered, d.Delta)
-				return
-			}
-		case d.Addr == "" && d.Denom == fc.denom:
-			okSupply = d.Delta.Cmp(neg) == 0
-			if !okSupply {
-				w.Violate("R1", "fee-not-burned-exactly", "%s with fee %s%s: total supply changed by %s", fc.kind, fc.fee, fc.denom, d.Delta)
-				return
+		case *baskettypes.MsgCreate:
+			fc = &feeCase{kind: "basket Create"}
+			if pre.BasketFee != nil && pre.BasketFee.Fee != nil {
+				fc.set, fc.denom = true, pre.BasketFee.Fee.Denom
+				fc.fee, _ = new(big.Int).SetString(pre.BasketFee.Fee.Amount, 10)
+				for _, cn := range msg.Fee {
+					if cn.Denom == fc.denom {
+						fc.offered = cn.Amount.BigInt()
+					}
+				}
 			}
 		default:
-			w.Violate("R1", "fee-moved-elsewhere", "%s with fee %s%s: the %s balance/supply of %q changed by %s (the fee must be burned, not parked)", fc.kind, fc.fee, fc.denom, d.Denom, d.Addr, d.Delta)
+			return // a message with other effects on coins: the fee cannot be isolated
+		}
+		fcs = append(fcs, fc)
+	}
+	if len(fcs) == 0 || !t.Res.OK {
+		return
+	}
+	if len(fcs) > 1 {
+		w.Probe("c18_multi_creation_tx_judged")
+	}
+	bank := DiffBank(pre, post)
+	kinds := ""
+	due := map[string]*big.Int{} // denom -> sum of fees
+	for _, fc := range fcs {
+		if kinds != "" {
+			kinds += "+"
+		}
+		kinds += fc.kind
+		if !fc.set || fc.fee == nil {
+			continue // R3: no fee set -> this message charges nothing
+		}
+		// R2: an accepted creation must have offered enough
+		if fc.offered == nil {
+			fc.offered = new(big.Int) // nothing offered in the fee denom = an offer of zero
+		}
+		if fc.offered.Cmp(fc.fee) < 0 {
+			w.Violate("R2", "accepted-with-offer-below-fee", "%s accepted although the fee is %s%s and the offer in that denom is %v", fc.kind, fc.fee, fc.denom, fc.offered)
+			return
+		}
+		if due[fc.denom] == nil {
+			due[fc.denom] = new(big.Int)
+		}
+		due[fc.denom].Add(due[fc.denom], fc.fee)
+	}
+	for _, d := range sortedKeys(due) {
+		// R2: ... and the creator must have had the funds for all of them
+		if pre.BankBal(t.Signer, d).Cmp(due[d]) < 0 {
+			w.Violate("R2", "accepted-without-funds", "%s accepted although the creator holds %s%s and the fees add up to %s", kinds, pre.BankBal(t.Signer, d), d, due[d])
 			return
 		}
 	}
-	if !okCreator {
-		w.Violate("R1", "creator-not-debited", "%s with fee %s%s accepted but the creator's balance did not change", fc.kind, fc.fee, fc.denom)
-		return
+	// R1 / R3: exactly the fees are debited and burned, nothing else moves
+	seenCreator, seenSupply := map[string]bool{}, map[string]bool{}
+	for _, d := range bank {
+		fee := due[d.Denom]
+		if fee == nil || fee.Sign() == 0 {
+			if fee == nil {
+				w.Violate("R3", "charged-without-fee-set", "%s accepted with no fee due in %s, yet the %s balance/supply of %q changed by %s", kinds, d.Denom, d.Denom, d.Addr, d.Delta)
+			} else {
+				w.Violate("R1", "fee-moved-elsewhere", "%s with a fee of zero: the %s balance/supply of %q changed by %s", kinds, d.Denom, d.Addr, d.Delta)
+			}
+			return
+		}
+		neg := new(big.Int).Neg(fee)
+		switch {
+		case d.Addr == t.Signer:
+			seenCreator[d.Denom] = true
+			if d.Delta.Cmp(neg) != 0 {
+				w.Violate("R1", "creator-debited-wrong-amount", "%s with fees of %s%s in total: the creator's balance changed by %s", kinds, fee, d.Denom, d.Delta)
+				return
+			}
+		case d.Addr == "":
+			seenSupply[d.Denom] = true
+			if d.Delta.Cmp(neg) != 0 {
+				w.Violate("R1", "fee-not-burned-exactly", "%s with fees of %s%s in total: total supply changed by %s", kinds, fee, d.Denom, d.Delta)
+				return
+			}
+		default:
+			w.Violate("R1", "fee-moved-elsewhere", "%s with fees of %s%s: the %s balance/supply of %q changed by %s (the fee must be burned, not parked)", kinds, fee, d.Denom, d.Denom, d.Addr, d.Delta)
+			return
+		}
 	}
-	if !okSupply {
-		w.Violate("R1", "fee-not-burned", "%s with fee %s%s accepted but total supply did not shrink: the fee was not burned", fc.kind, fc.fee, fc.denom)
+	for _, d := range sortedKeys(due) {
+		if due[d].Sign() == 0 {
+			continue
+		}
+		if !seenCreator[d] {
+			w.Violate("R1", "creator-not-debited", "%s with fees of %s%s accepted but the creator's balance did not change", kinds, due[d], d)
+			return
+		}
+		if !seenSupply[d] {
+			w.Violate("R1", "fee-not-burned", "%s with fees of %s%s accepted but total supply did not shrink: the fee was not burned", kinds, due[d], d)
+			return
+		}
 	}
 }
 
